@@ -3,7 +3,8 @@
    every attachment position (a side-effect block attached to a value or
    following a suffix operator) one that leaves none, an else-chain is
    conditionals followed by one final else, `^~` stands where no operand of
-   its body is pending.  [bal] computes the number of operands the inline code
+   its body is pending, a construct that builds one child only (a prefix
+   operator, a group, a nested expression, `^~`) has no other.  [bal] computes the number of operands the inline code
    of a subtree leaves, or None when the discipline is broken. *)
 From Coq Require Import List Arith Bool NArith Lia.
 From GV Require Import Base.Result Gen.TokenTypes Gen.Defs Gen.Instr Model.Parser Model.BuilderWL Model.Compile
@@ -28,11 +29,11 @@ Fixpoint bal (lst : option definition) (cond tail : bool) (t : tree) : option na
       if instruction_eqb i I_EndExpression then None
       else if none_or_zero l && none_or_zero r then Some 1 else None
     | KUnary _ child_right =>
-      if child_right then (if one r false then Some 1 else None)
+      if child_right then (match l with Some _ => None | None => if one r false then Some 1 else None end)
       else (if one l false && none_or_zero r then Some 1 else None)
     | KBinary _ _ | KInfix => if one l false && one r false then Some 1 else None
     | KFixApply child_right =>
-      if child_right then (if one r false then Some 1 else None)
+      if child_right then (match l with Some _ => None | None => if one r false then Some 1 else None end)
       else (if one l false && none_or_zero r then Some 1 else None)
     | KList =>
       let item (o : option tree) : option nat :=
@@ -52,12 +53,20 @@ Fixpoint bal (lst : option definition) (cond tail : bool) (t : tree) : option na
     | KLogical _ =>
       if opt_b registers l then None
       else if one l false && one r tail then Some 1 else None
-    | KGroup => match r with None => Some 0 | Some a => bal None false tail a end
+    | KGroup =>
+      match l with
+      | Some _ => None
+      | None => match r with None => Some 0 | Some a => bal None false tail a end
+      end
     | KSideEffect =>
       if one r false
       then match l with None => Some 0 | Some a => bal None false tail a end
       else None
-    | KNested => match r with None => Some 1 | Some b => if is_some_n (bal None false true b) 1 then Some 1 else None end
+    | KNested =>
+      match l with
+      | Some _ => None
+      | None => match r with None => Some 1 | Some b => if is_some_n (bal None false true b) 1 then Some 1 else None end
+      end
     | KJumpIf _ =>
       if one l false && one r tail then (if cond then Some 0 else Some 1) else None
     | KElse =>
@@ -71,7 +80,7 @@ Fixpoint bal (lst : option definition) (cond tail : bool) (t : tree) : option na
         else None
       | _, _ => None
       end
-    | KReapply => if tail && one r false then Some 1 else None
+    | KReapply => match l with Some _ => None | None => if tail && one r false then Some 1 else None end
     | KSubexpr => if one l tail && one r tail then Some 1 else None
     | KErr => None
     end
